@@ -47,6 +47,9 @@ def gen(seed, tier):
     ops = []
     t = 0.0
     reconf_world = rng.random() < 0.15
+    # logger names whose logging.Logger is set above every level used: nothing is emitted on them,
+    # the demand write goes through all the same
+    muted = sorted(rng.sample(["verif.c16.a", "verif.c16.b", "verif.c16.renamed", ""], rng.randint(1, 2))) if rng.random() < 0.15 else []
     for _ in range(rng.randint(1, 12) if rng.random() < 0.8 else rng.randint(13, 40)):
         t += rng.choice([0.0, 0.0, 0.25, 0.5, 1.0])
         k = rng.choice(["write", "write", "write", "read", "read", "state", "outside"] + (["reconf"] if reconf_world else []))
@@ -63,7 +66,7 @@ def gen(seed, tier):
         else:
             ops.append({"t": t, "k": k, "value": rng.choice(VALS)})
     probes = [{"message": rng.choice(TEMPLATES_BAD + TEMPLATES_OK[1:]), "level": rng.choice([10, 20])} for _ in range(rng.randint(0, 3))]
-    return {"prop": "C16", "seed": seed, "stack": stack, "ops": ops, "template_probes": probes, "pool": {"supply": rng.choice([0.0, 4.0, 8.0]), "demand": rng.choice([0.0, 2.0, 5]), "utilisation": rng.choice(FR), "allocation": rng.choice(FR)}}
+    return {"prop": "C16", "seed": seed, "muted": muted, "stack": stack, "ops": ops, "template_probes": probes, "pool": {"supply": rng.choice([0.0, 4.0, 8.0]), "demand": rng.choice([0.0, 2.0, 5]), "utilisation": rng.choice(FR), "allocation": rng.choice(FR)}}
 
 
 def template_ok(msg):
@@ -88,6 +91,7 @@ def run(scenario, tape_values):
     pool = RecPool(world, "pool", **sc["pool"])
     handlers = {}
     loggers_touched = []
+    muted_names = set(sc.get("muted") or [])
 
     def prepare_logger(name):
         lg = logging.getLogger(name)
@@ -95,7 +99,7 @@ def run(scenario, tape_values):
             h = CaptureHandler(world)
             handlers[name] = h
             lg.addHandler(h)
-            lg.setLevel(1)
+            lg.setLevel(60 if name in muted_names else 1)
             lg.propagate = False
             lg.disabled = False
             loggers_touched.append((lg, h))
@@ -246,6 +250,9 @@ def run(scenario, tape_values):
     ev = world.events
     reconfs = [e for e in ev if e["kind"] == "reconf"]
 
+    def expect_n(name):
+        return 0 if (("" if name == "root" else name) in muted_names) else 1
+
     def cfg_at(i, seq):
         """(logger name, level) Logger #i is configured with at event `seq`."""
         name, level = stack[i]["_resolved_name"], stack[i]["level"]
@@ -269,6 +276,10 @@ def run(scenario, tape_values):
                 wrong = [r for r in recs if r["target_tok"] == spec["_target_tok"] and r not in mine]
                 if wrong:
                     V("C16/record-wrong-logger-or-level", "Logger #%d (%s, level %s) emitted a record on logger %r at level %r with message %r" % (i, cname, clevel, wrong[0]["logger"], wrong[0]["level"], wrong[0]["msg"]))
+                if expect_n(cname) == 0:
+                    if mine:
+                        V("C16/record-on-muted-logger", "Logger #%d emitted a record on %r whose threshold is above its level" % (i, cname))
+                    continue
                 if len(mine) != 1:
                     later = [r for r in ev if r["kind"] == "log-record" and r["seq"] > e["seq"] and r["target_tok"] == spec["_target_tok"]]
                     V("C16/record-count", "pool write of %r (seq %d): Logger #%d (%s, level %s) emitted %d records before it, expected %d%s" % (e["value"], e["seq"], i, spec["_resolved_name"], spec["level"], len(mine), 1, "; a record follows the write" if later and not mine else ""))
@@ -288,7 +299,7 @@ def run(scenario, tape_values):
         for i, spec in top_loggers:
             cname, clevel = cfg_at(i, w["seq"])
             mine = [r for r in ev if r["kind"] == "log-record" and w["seq"] < r["seq"] < hi and r.get("op") == "write" and r["target_tok"] == spec["_target_tok"] and r["logger"] == cname and r["level"] == clevel and r["msg"] == (spec.get("message") or DEFAULT)]
-            same = [spec]
+            same = [spec] * expect_n(cname)
             if len(mine) != len(same):
                 V("C16/record-count-top", "write of %r at the top: Logger #%d (%s) emitted %d records, expected %d" % (w["value"], i, spec["_resolved_name"], len(mine), len(same)))
             elif any(r["args"].get("value") != w["value"] for r in mine):
@@ -299,6 +310,8 @@ def run(scenario, tape_values):
         for i in sync_loggers:
             spec = stack[i]
             mine = [r for r in ev if r["kind"] == "log-record" and w["seq"] < r["seq"] < hi and r.get("op") == "write" and r["target_tok"] == spec["_target_tok"]]
+            if expect_n(cfg_at(i, w["seq"])[0]) == 0:
+                continue
             if len(mine) != 1:
                 V("C16/record-count-sync", "write of %r at the top of %r: Logger #%d emitted %d records, expected 1" % (w["value"], kinds, i, len(mine)))
                 continue
